@@ -553,15 +553,15 @@ class Context:
 
         def sin_fn(*args):
             x = to_number(args[0]) if args else float("nan")
-            return math.sin(x)
+            return math.sin(x) if math.isfinite(x) else float("nan")
 
         def cos_fn(*args):
             x = to_number(args[0]) if args else float("nan")
-            return math.cos(x)
+            return math.cos(x) if math.isfinite(x) else float("nan")
 
         def tan_fn(*args):
             x = to_number(args[0]) if args else float("nan")
-            return math.tan(x)
+            return math.tan(x) if math.isfinite(x) else float("nan")
 
         def asin_fn(*args):
             x = to_number(args[0]) if args else float("nan")
@@ -592,7 +592,10 @@ class Context:
 
         def exp_fn(*args):
             x = to_number(args[0]) if args else float("nan")
-            return math.exp(x)
+            try:
+                return math.exp(x)
+            except OverflowError:
+                return float("inf")
 
         def random_fn(*args):
             return random.random()
@@ -658,18 +661,27 @@ class Context:
 
         def log2_fn(*args):
             x = to_number(args[0]) if args else float("nan")
+            if x == 0:
+                return float("-inf")
             return math.log2(x) if x > 0 else float("nan")
 
         def log10_fn(*args):
             x = to_number(args[0]) if args else float("nan")
+            if x == 0:
+                return float("-inf")
             return math.log10(x) if x > 0 else float("nan")
 
         def expm1_fn(*args):
             x = to_number(args[0]) if args else float("nan")
-            return math.expm1(x)
+            try:
+                return math.expm1(x)
+            except OverflowError:
+                return float("inf")
 
         def log1p_fn(*args):
             x = to_number(args[0]) if args else float("nan")
+            if x == -1:
+                return float("-inf")
             return math.log1p(x) if x > -1 else float("nan")
 
         # Set all methods
